@@ -394,6 +394,38 @@ def run_transparency(case: dict[str, Any]) -> Outcome:
     return out
 
 
+def _entropy_blob(seed: bytes, size: int) -> bytes:
+    import hashlib
+
+    out = bytearray()
+    h = seed
+    while len(out) < size:
+        h = hashlib.sha256(h).digest()
+        out += h
+    return bytes(out[:size])
+
+
+def run_entropy(case: dict[str, Any]) -> Outcome:
+    """Transparency for payloads a codec cannot shrink (already-compressed / random blobs): the case carries only a
+    seed and a size; the incompressible value is expanded here (sha-256 chain) and returned by a unary method and
+    emitted by a producer, everything externalized (threshold 0) under the drawn storage compression."""
+    blob = _entropy_blob(case["seed"], case["size"])
+    spec = {
+        "methods": [
+            {"name": "m0_blob", "kind": "unary", "params": [], "ret": "bytes",
+             "behaviour": {"logs": [{"level": "INFO", "msg": "blob"}], "action": {"op": "return", "value": blob}}},
+            {"name": "m1_blobs", "kind": "producer", "params": [], "header": None, "out_cols": [{"name": "c0", "type": "binary"}],
+             "init": {"logs": [], "action": {"op": "ok"}},
+             "steps": [{"logs": [{"level": "DEBUG", "msg": "step"}], "action": {"op": "emit", "rows": {"c0": [blob, b"tail"]}, "meta": None}}]},
+        ],
+        "calls": [{"mid": 0, "args": {}}, {"mid": 1, "args": {}, "take": None, "end": "exhaust"}],
+    }
+    full = {"spec": spec, "cfg": case["cfg"], "threshold": {"mode": "zero"}, "comp": case["comp"], "upload": False}
+    out = run_transparency(full)
+    out.label(f"entropy_size={case['size']}")
+    return out
+
+
 def run_corruption(case: dict[str, Any]) -> Outcome:
     out = Outcome()
     base = case["base"]
@@ -576,6 +608,12 @@ def main(chk: Check) -> None:
     chk.explore("transparency", _transparency_cases(), run_transparency, quick=210, thorough=2400)
     chk.explore("corruption", st.fixed_dictionaries({"base": _corruptible, "fault": _fault}), run_corruption, quick=270, thorough=4000)
     chk.explore("resolver", resolver_cases, run_resolver, quick=600, thorough=16000)
+    chk.explore(
+        "entropy",
+        st.fixed_dictionaries({"seed": st.binary(min_size=1, max_size=8), "size": st.sampled_from([1000, 70_000, 300_000]),
+                               "cfg": st.sampled_from(range(len(CFGS))), "comp": st.sampled_from(COMPS)}),
+        run_entropy, quick=24, thorough=400,
+    )
     if not chk.quick or chk.replay is not None:
         # the repo's fake_storage service on 127.0.0.1 and the real fetch_url / decompression path
         chk.explore("loopback", _transparency_cases().map(lambda c: {**c, "upload": False, "loop": True}), run_transparency, quick=1, thorough=800)
